@@ -48,21 +48,21 @@ CLAIMED.update({
          "DESIGN.md §4 C03"),
  "C04": ("exploration",
          "differential property testing of the two backends on generated well-typed programs (TypeScript stripped and run in a fresh V8 context vs. WebAssembly through the emitted loader)",
-         "Same generator as C01 with value-level emphasis; printed lines and end class of the TypeScript and WebAssembly runs must agree; runs the reference interpreter marks as overflow / division by zero are excluded and counted; wall-clock expiry of an execution is inconclusive.",
+         "Same generator as C01 with value-level emphasis (plus, for this check only, printed comparisons of Vec<Str> values whose elements are built from one run-time string in different ways, and long position-dependent strings); printed lines and end class of the TypeScript and WebAssembly runs must agree; runs the reference interpreter marks as overflow / division by zero are excluded and counted; wall-clock expiry of an execution is inconclusive.",
          "Recorded backend differences (floor vs trunc division, loose equality on tags, 31-bit Vec ints, string escapes, non-ASCII, INT_MIN constant merging) are excluded by construction and re-observed by probes.",
          "DESIGN.md §4 C04"),
 })
 CLAIMED.update({
  "C06": ("fault_enumeration",
-         "single-fault injection on a typed program IR (property testing over a choice tape): 24 guaranteed-ill-typed fault kinds at tape-chosen sites of generated well-typed programs",
-         "Each case is a well-typed generated program plus one edit that is ill-typed by construction (the IR knows every expression's type; all generic calls carry explicit type arguments, or the type parameter is pinned by another argument). The unmutated program must have no diagnostics; the mutant must get at least one diagnostic located in the offending module and compile_sources must return Err. Fault kinds include a class claiming a second, unsatisfiable instantiation of a generic interface and a value of a same-named class declared in another module. Evidence tabulates fault kind x outcome.",
+         "single-fault injection on a typed program IR (property testing over a choice tape): 26 guaranteed-ill-typed fault kinds at tape-chosen sites of generated well-typed programs",
+         "Each case is a well-typed generated program plus one edit that is ill-typed by construction (the IR knows every expression's type; all generic calls carry explicit type arguments, or the type parameter is pinned by another argument). The unmutated program must have no diagnostics; the mutant must get at least one diagnostic located in the offending module and compile_sources must return Err. Fault kinds include a class claiming a second, unsatisfiable instantiation of a generic interface, a value of a same-named class declared in another module, a struct pattern with a refutable sub-pattern lacking a case, and an unbounded type parameter passed to a bounded one. Evidence tabulates fault kind x outcome.",
          "The guarantee of each fault kind is argued in generators/faults.rs; sites where the guarantee does not hold (inferred type arguments, literal merged into INT_MIN) are excluded or discarded and counted.",
          "DESIGN.md §4 C06"),
 })
 CLAIMED.update({
  "C12": ("exploration",
          "differential property testing across fresh processes: each generated program (accepted or carrying injected errors) is compiled in 8 fresh processes with different RAYON_NUM_THREADS; verdict, rendered diagnostics and behaviour of the emitted artefacts are compared",
-         "Fresh processes give fresh hash seeds and thread pools; verdicts and diagnostics text must be byte-identical, and every distinct emitted WebAssembly / TypeScript artefact is executed and must behave identically. Byte identity of artefacts is only a metric (they usually differ).",
+         "Fresh processes give fresh hash seeds and thread pools; verdicts and diagnostics text must be byte-identical, and every distinct emitted WebAssembly / TypeScript artefact is executed and must behave identically. Byte identity of artefacts is only a metric (they usually differ). One case in 10 has 2-3 entry modules over mutually recursive enums (layout decisions that may depend on which entry is specialised first).",
          "Sampling of hash seeds and schedules, no control over them: low-probability interleaving faults can be missed (stated in DESIGN.md). A failure of this check is by nature not always reproducible; the first observation is reported.",
          "DESIGN.md §4 C12"),
  "C13": ("exploration",
@@ -74,7 +74,7 @@ CLAIMED.update({
 CLAIMED.update({
  "C07": ("exploration",
          "model-based property testing: generated type declarations and pattern lists; oracle = brute-force enumeration of all values of the scrutinee type with an independent matcher",
-         "For generated enum / struct / tuple / generic declarations (recursive and nested) and generated pattern lists rendered as match, destructuring let and if-let, every value of the scrutinee type up to the patterns' depth + 1 is enumerated (leaves abstract) and matched by the harness's own matcher. The checker must report non-exhaustiveness iff a value is unmatched, its counterexample must denote at least one value and only unmatched ones, and an if-let is flagged irrefutable iff its pattern matches every value. Failures shrink to a minimal declaration + pattern list.",
+         "For generated enum / struct / tuple / generic declarations (recursive and nested) and generated pattern lists rendered as match, destructuring let and if-let, every value of the scrutinee type up to the patterns' depth + 1 is enumerated (leaves abstract) and matched by the harness's own matcher. The checker must report non-exhaustiveness iff a value is unmatched, its counterexample must denote at least one value and only unmatched ones, and an if-let is flagged irrefutable iff its pattern matches every value. One case in 8 is spread over two modules (the judged module declares decoy enums with the same class names and receives the scrutinee by inference). Failures shrink to a minimal declaration + pattern list.",
          "Universe capped at 50 000 values per case (larger cases are discarded and counted). Leaves (int / Str / bool) have no literal patterns in this language and are one abstract value.",
          "DESIGN.md §4 C07"),
 })
@@ -97,7 +97,7 @@ CLAIMED.update({
 })
 CLAIMED.update({
  "C15": ("exploration",
-         "property testing with generator-side ground truth: unique-name programs and their scope-level-renamed variants; go-to-definition / find-references / rename compared with the binder each occurrence resolves to; rename additionally checked by round trip and by the reference interpreter",
+         "property testing with generator-side ground truth: unique-name programs and their scope-level-renamed variants; go-to-definition / find-references / rename compared with the binder each occurrence resolves to (for or-pattern variables go-to-definition must be the first alternative's binder); rename additionally checked by round trip and by the reference interpreter",
          "Hosts are dedicated match members with nested or-patterns (variant alternatives binding the same names in different tuple components; struct payloads destructured in shorthand form) and G1 accepted programs whose local names are unique per member, so the binder of every occurrence is known; the queried document is that program or the same program with binders renamed after their scope level (sibling scopes reuse names). At tape-chosen occurrences definition must land on the right binding, references must be exactly that variable's occurrences, rename must change exactly them, keep the document error-free and behaviourally identical under the reference interpreter, and renaming back must restore the formatted original.",
          "Parameters of interface member declarations are not queried (no scope). For or-pattern variables any alternative's binder counts as the binding.",
          "DESIGN.md §4 C15"),
@@ -110,7 +110,7 @@ CLAIMED.update({
 CLAIMED.update({
  "C02": ("exploration",
          "differential property testing across optimization plans: generated loop programs (G2) and general programs (G1) compiled without the optimizer, with all 32 configurations, with every single pass and with driver-shaped pass schedules (cfg-guarded hook); emitted WebAssembly executed and compared",
-         "Every distinct module emitted for a plan is run in node and must print the same lines and end the same way (ok / panic message / trap class / stack exhaustion) as the module built without the optimizer. The loop generator covers guards of every comparison kind in both operand orders, strides of either sign and size, bounds near INT_MIN / INT_MAX, derived induction expressions, trapping and loop-invariant computations, effects in bodies and in dead loop variables, nested loops and per-iteration tuples, with literal and opaque arguments; trip counts are bounded by simulation. Signatures name the smallest configuration that differs.",
+         "Every distinct module emitted for a plan is run in node and must print the same lines and end the same way (ok / panic message / trap class / stack exhaustion) as the module built without the optimizer. The loop generator covers guards of every comparison kind in both operand orders, strides of either sign and size, bounds near INT_MIN / INT_MAX, derived induction expressions, trapping and loop-invariant computations, effects in bodies and in dead loop variables, nested loops and per-iteration tuples, comparisons of `i + c` with a literal on either side, loops whose variables feed each other (delay lines, rotations, swaps) and loops that cross most of the 32-bit range in 1-4 huge steps, with literal and opaque arguments; trip counts are bounded by simulation. Signatures name the smallest configuration that differs.",
          "32-bit wrapping and traps are the target's semantics (the reference is the unoptimized build, not the source-level interpreter). Plans containing inlining are closed with one constant-propagation pass (inlining's typed-agnostic `x + 0` moves never reach the backend in any configuration). Plans that cannot be built are counted, not judged (C03's subject). Five recorded optimizer findings exclude derived-induction-variable, guard-as-result, same-operand division and compare-after-add shapes (and extreme literals in G1 hosts) from generation; their probes run on every invocation. Pass schedules are driver-shaped (per-round subsets of the driver's own pass order).",
          "DESIGN.md §4 C02"),
 })
